@@ -7,7 +7,7 @@
    The main statement holds for every class and every input (no domain restriction since the
    empty-string alias was repaired in /repo 7108448). *)
 From Coq Require Import List String Ascii ZArith Bool.
-From Verif Require Import Regex PyK PyK_strat PyK_alias FieldDecl FieldDeclProofs KeyModel KeyImpl KeyProofs KeyDecl KeyCfg KeyNested KeyRewrite KeyHook KeyDc KeyDcDecl.
+From Verif Require Import Regex PyK PyK_strat PyK_alias FieldDecl FieldDeclProofs KeyModel KeyImpl KeyProofs KeyDecl KeyCfg KeyNested KeyRewrite KeyHook KeyDc KeyDcDecl KeyDeep.
 From VerifGen Require Import K4 K5.
 Import ListNotations.
 Open Scope string_scope.
@@ -258,6 +258,35 @@ Example C09_nonvacuous_plain_config :
   /\ impl_from_hier ls None [(KeyS "ax", 1%Z); (KeyS "q", 2%Z)] = Ok (OExtra [KeyS "q"])
   /\ impl_from_hier ls None [(KeyS "x", 1%Z)] = Ok (OInst [("x", Some (KeyS "x", 1%Z))]).
 Proof. repeat split; vm_compute; reflexivity. Qed.
+
+(* ---- dataclass-typed fields at any depth and inside Optional / List / Dict[str, .] ---- *)
+Theorem C09_deep : forall fuel tb k d, deep_impl fuel tb k d = deep_ref fuel tb k d.
+Proof. exact deep_impl_eq_ref. Qed.
+Print Assumptions C09_deep.
+
+Theorem C09_deep_list : forall rd ex fu tb t l,
+  dec rd ex (S fu) tb (TList t) (VL l) = option_map RList (all_some (map (dec rd ex fu tb t) l)).
+Proof. exact list_elementwise. Qed.
+Print Assumptions C09_deep_list.
+
+Theorem C09_deep_map_keys : forall rd ex fu tb t d xs,
+  all_some (map (fun p => dec rd ex fu tb t (snd p)) d) = Some xs ->
+  dec rd ex (S fu) tb (TMap t) (VD d) = Some (RMap (combine (map fst d) xs)).
+Proof. exact map_keys_are_data. Qed.
+Print Assumptions C09_deep_map_keys.
+
+(* N2: r alias "ar", forbid_extra_keys.  N1: q: List[N2] alias "aq".  K: x: Dict[str, N1], allow names.
+   The keys "ar" and "aq" of the outer mapping value are data; inside, each class applies its own rules;
+   one extra key three levels down invalidates K.x *)
+Example C09_nonvacuous_deep :
+  let n2 := mkN (mkC [mkF "r" (Some "ar") None false] [] false true None) [] in
+  let n1 := mkN (mkC [mkF "q" (Some "aq") None false] [] false false None) [("q", TList (TCls 0))] in
+  let k := mkN (mkC [mkF "x" None None false] [] true false None) [("x", TMap (TCls 1))] in
+  deep_ref 10 [n2; n1; k] 2 [(KeyS "x", VD [(KeyS "ar", VD [(KeyS "aq", VL [VD [(KeyS "ar", VZ 1)]; VD [(KeyS "ar", VZ 2)]])])])]
+  = DInst [("x", Some (RMap [(KeyS "ar", RObj [("q", Some (RList [RObj [("r", Some (RZ 1))]; RObj [("r", Some (RZ 2))]]))])]))]
+  /\ deep_impl 10 [n2; n1; k] 2 [(KeyS "x", VD [(KeyS "m", VD [(KeyS "aq", VL [VD [(KeyS "ar", VZ 1); (KeyS "junk", VZ 0)]])])])]
+  = DInvalid "x".
+Proof. split; vm_compute; reflexivity. Qed.
 
 (* ---- arbitrary MROs (diamonds): a model of CPython's dataclass walk and of get_type_hints ---- *)
 
